@@ -1,6 +1,7 @@
 import PyXABModel.Drv.Util
 import PyXABModel.Drv.TreeBandit
 import PyXABModel.Drv.Sweep
+import PyXABModel.Drv.Meta
 namespace PyXAB.Drv
 
 inductive DState where
@@ -12,6 +13,8 @@ inductive DState where
   | doo (d : DooD)
   | sto (d : StoD)
   | sq (d : SqD)
+  | poo (d : PooD)
+  | gpo (d : GpoDD)
 
 def runRd {β} (r : Rd β) (toks : List String) : Except String β :=
   match r.run toks with
@@ -71,6 +74,16 @@ def algoStep (st : DState) (cmd : String) (args : List String) : DState × Strin
     match sqInit args with
     | .ok (d, note) => (.sq d, note)
     | .error e => (.none, s!"bad-op {e}")
+  | "POO.init", _ =>
+    match pooInit args with
+    | .ok (d, note) => (.poo d, note)
+    | .error e => (.none, s!"bad-op {e}")
+  | "GPO.init", _ =>
+    match gpoInit args with
+    | .ok (d, note) => (.gpo d, note)
+    | .error e => (.none, s!"bad-op {e}")
+  | _, .poo d => let (d', o) := pooStep d cmd args; (.poo d', o)
+  | _, .gpo d => let (d', o) := gpoStep d cmd args; (.gpo d', o)
   | _, .soo d => let (d', o) := sooStep d cmd args; (.soo d', o)
   | _, .doo d => let (d', o) := dooStep d cmd args; (.doo d', o)
   | _, .sto d => let (d', o) := stoStep d cmd args; (.sto d', o)
